@@ -890,8 +890,8 @@ impl ParserListener for Screen {
             1 => Box::new(0..=self.cursor.x),
             2 => Box::new(0..self.columns),
             _ => {
-                panic!("invalid eras_in_line parameter");
-            } // Handle invalid `how` values if necessary
+                return;
+            } // Unsupported `how` values are ignored
         };
 
         let line = self.buffer.entry(self.cursor.y).or_insert(HashMap::new());
